@@ -239,6 +239,13 @@ def rule_G6(ctx):
                 for a in alt:
                     if len(a) < 2 or not isinstance(a[1], str):
                         continue
+                    if a[0] in ("in", "notin") and len(a) > 2 and isinstance(a[2], tuple) and \
+                            len(a[2]) == 2 and a[2][0] == "src" and str(a[2][1]).isidentifier():
+                        ok, w = _index_current(f, a[2][1], loop, in_loop, graph, add)
+                        if ok:
+                            ok_alt = True
+                            break
+                        why = w or why
                     names = _names_in(a[1])
                     ok, w = _fresh_lookup(f, names, a[1], loop, in_loop, graph, add, 0)
                     if ok:
@@ -347,8 +354,8 @@ def _index_current(f, idx, loop, in_loop, graph, add):
     from_graph = any(callee_name(c) in GRAPH_LOOKUPS or (
         graph and unparse(c.func).startswith(graph + "."))
         for d in ds for c in ast.walk(d.value) if isinstance(c, ast.Call))
-    if not from_graph:
-        return False, "the index %s is not filled from the graph" % untag(idx)
+    # (an index that starts empty on a first visit is fine: what matters within one visit is
+    # that it is kept current where the edge is added)
     # the block holding the add: its statements (and those after it in the same block)
     blk = add
     while blk is not None and not isinstance(getattr(blk, "_parent", None),
@@ -740,16 +747,8 @@ def rule_P15(ctx):
 
 
 def _atoms_wo_raises(fg, node):
-    from sa.guards import terminates
-    gs, _ = fg.context(node)
-    out = []
-    for g in gs:
-        if g.kind == "early-exit" and isinstance(g.origin, ast.If):
-            arm = g.origin.body if terminates(g.origin.body) else g.origin.orelse
-            if arm and isinstance(arm[-1], ast.Raise):
-                continue
-        out.extend(g.atoms)
-    return out
+    from sa.paths import _atoms_wo_validation
+    return _atoms_wo_validation(fg, node)
 
 
 # ====================================================================== P16
